@@ -13,6 +13,7 @@ import (
 	"sort"
 	"strconv"
 	"strings"
+	"time"
 )
 
 // RepoPath is the csgura/fp tree gombok is built from and the scratch modules are wired to.
@@ -33,7 +34,7 @@ func goEnv() []string {
 		}
 		env = append(env, e)
 	}
-	return append(env, "GOFLAGS=-mod=mod", "GOPROXY=off", "GOSUMDB=off", "GOTOOLCHAIN=local")
+	return append(env, "GOFLAGS=-mod=mod -trimpath", "GOPROXY=off", "GOSUMDB=off", "GOTOOLCHAIN=local")
 }
 
 // NewModule creates a throw-away module wired to RepoPath().
@@ -346,16 +347,26 @@ type Finding struct {
 
 // Outcome of one package.
 type Outcome struct {
-	Findings  []Finding
-	Counters  map[string]int64
-	Tested    []*Struct // structs whose laws ran
-	Refused   []*Struct // structs gombok refused (crash / can't summon / no output)
-	Lost      []*Struct // structs not tested because the package could not be compiled
-	Notes     []string
+	Findings   []Finding
+	Counters   map[string]int64
+	Tested     []*Struct // structs whose laws ran
+	Refused    []*Struct // structs gombok refused (crash / can't summon / no output)
+	Lost       []*Struct // structs not tested because the package could not be compiled
+	Notes      []string
 	GombokRuns int
 }
 
 func (o *Outcome) add(k string, n int64) { o.Counters[k] += n }
+
+func (o *Outcome) refuse(s *Struct, why string) {
+	for _, r := range o.Refused {
+		if r.Name == s.Name {
+			return
+		}
+	}
+	o.Refused = append(o.Refused, s)
+	o.add("refused."+why, 1)
+}
 
 type Options struct {
 	Prefix    string // key prefix: "gombok/value" or "gombok/json"
@@ -405,7 +416,9 @@ func RunPackage(t *Tool, p *Pkg, opt Options) *Outcome {
 			return o
 		}
 		src := cur.Source()
+		t0 := time.Now()
 		g := RunGombok(t, dir, p.Name)
+		o.add("time_ms.gombok", time.Since(t0).Milliseconds())
 		o.GombokRuns++
 		if opt.KeepDir != "" {
 			exec.Command("cp", "-r", dir, opt.KeepDir).Run()
@@ -426,14 +439,14 @@ func RunPackage(t *Tool, p *Pkg, opt Options) *Outcome {
 			bad := isolate(t, mod, cur, o, func(r GombokResult) bool { return r.Exit != 0 })
 			if len(bad) == 0 {
 				// fails only in combination: count the whole package as refused
-				o.Refused = append(o.Refused, cur.Structs...)
-				o.add("refused."+g.Refusal, int64(len(cur.Structs)))
+				for _, s := range cur.Structs {
+					o.refuse(s, g.Refusal)
+				}
 				o.Notes = append(o.Notes, "gombok refused the package as a whole ("+g.Refusal+"): "+firstLine(g.Output))
 				return o
 			}
 			for _, s := range bad {
-				o.Refused = append(o.Refused, s)
-				o.add("refused."+g.Refusal, 1)
+				o.refuse(s, g.Refusal)
 			}
 			o.Notes = append(o.Notes, fmt.Sprintf("gombok refused %v (%s): %s", names(bad), g.Refusal, panicLine(g.Output)))
 			cur = cur.Without(nameSet(bad))
@@ -451,13 +464,11 @@ func RunPackage(t *Tool, p *Pkg, opt Options) *Outcome {
 			}
 			if has || s.ExpectsNothing() {
 				if !has {
-					o.add("refused.no-output-expected", 1)
-					o.Refused = append(o.Refused, s)
+					o.refuse(s, "no-output-expected")
 				}
 				accepted = append(accepted, s)
 			} else {
-				o.add("refused.no-output", 1)
-				o.Refused = append(o.Refused, s)
+				o.refuse(s, "no-output")
 				o.Notes = append(o.Notes, "gombok wrote nothing for "+s.Summary())
 			}
 		}
@@ -470,7 +481,9 @@ func RunPackage(t *Tool, p *Pkg, opt Options) *Outcome {
 			o.Notes = append(o.Notes, err.Error())
 			return o
 		}
+		t0 = time.Now()
 		tr := RunLawTest(dir)
+		o.add("time_ms.gotest", time.Since(t0).Milliseconds())
 		if opt.KeepDir != "" {
 			exec.Command("cp", "-r", dir, opt.KeepDir).Run()
 		}
@@ -547,6 +560,14 @@ func RunPackage(t *Tool, p *Pkg, opt Options) *Outcome {
 			}
 			continue
 		}
+		if !tr.Done && !strings.Contains(tr.Output, "panic:") && !strings.Contains(tr.Output, "fatal error:") {
+			// the test binary did not run to the end for a reason that is not a crash of the code
+			// under test (killed, resource exhaustion): harness problem, not a verdict
+			o.Notes = append(o.Notes, "law test did not run to completion (no panic): "+clip(tailLines(tr.Output, 8), 600))
+			o.add("harness.test-did-not-run", 1)
+			o.Lost = append(o.Lost, cur.Structs...)
+			return o
+		}
 		if !tr.Done {
 			o.Findings = append(o.Findings, Finding{Key: opt.Prefix + "/lawtest-crash", Detail: "the law-test binary did not finish:\n" + clip(tailLines(tr.Output, 30), 3000),
 				Witness: map[string]any{"input": src, "output": clip(tr.Output, 8000)}})
@@ -569,6 +590,10 @@ func RunPackage(t *Tool, p *Pkg, opt Options) *Outcome {
 			key := prefix + "/" + f.Law + "/" + f.Kind
 			if f.Kind == "-" || f.Kind == "" {
 				key = prefix + "/" + f.Law
+			}
+			if f.Law == "json-error-aliased-storage-changed" {
+				// one stable key: the mechanism is the same for every container kind
+				key = prefix + "/unmarshal-error-mutates-shared-storage"
 			}
 			w := map[string]any{"input": src, "law": f.Law, "field": f.Field, "field_kind": f.Kind, "detail": f.Detail, "failing_evaluations": f.Repeats}
 			detail := fmt.Sprintf("law %q fails for struct %s, field %s (%s): %s", f.Law, f.Struct, f.Field, f.Kind, f.Detail)
